@@ -107,6 +107,18 @@ Theorem slice_oob_rejected : forall B dims shape start end_ units rm j d n s e r
 Proof. exact slice_oob_rejected_thm. Qed.
 Print Assumptions slice_oob_rejected.
 
+(** the complete path of the drivers - dataSlice, then DataView::getData of the whole view, on the array that holds
+    its own flat indices - delivers the specification's element ids in the specification's (row-major) order *)
+Theorem C17_slice_read_ids : forall B dims shape start end_ units rm v,
+  view_check_wraps B = false ->
+  shape_ok shape -> all_u64 shape -> Forall (fun s => s < u64max) shape -> (List.length shape <= 32)%nat ->
+  data_slice B dims shape start end_ units rm = Ok v ->
+  fits shape (v_offset v) (v_count v) = true ->
+  slice_read B dims (id_array shape) start end_ units rm =
+  Ok (v_count v, map VI (spec_ids shape (box_lists (v_offset v) (v_count v)))).
+Proof. exact slice_read_ids. Qed.
+Print Assumptions C17_slice_read_ids.
+
 (** the hypotheses are met: sampled dimensions satisfy [idx_spec] and [axis_ok] by the C07 theorem; the padding
     values of every dimension kind start at the first and end at the last coordinate; getSIScaling is the quotient
     of the prefix factors for every prefix of the generated table *)
